@@ -106,6 +106,7 @@ def compare_replay(hist, events, nf):
     exp = [h for h in hist if h["act"] in ("Probe", "InstallOk", "InstallPanic", "End", "VerifyPanic", "Call", "CallUnwind")]
     pending_verify = None
     after_end = False
+    unwound_end = False
     # a trampoline allocated by an installation that then fails in mprotect is never released
     # (observed, outside the listed properties: C12 speaks of successful installations)
     orphans = sum(1 for h in hist if h["act"] == "Install" and h.get("fault") == "mprotect")
@@ -118,9 +119,13 @@ def compare_replay(hist, events, nf):
             while ev_i < len(evs) and evs[ev_i]["ev"] == "Call" and len(got) < nf:
                 got.append(evs[ev_i]["res"])
                 ev_i += 1
-            if got != list(h["out"])[:nf]:
+            want = list(h["out"])[:nf]
+            # functions the behaviour's model does not have are never named: they must answer as originals
+            if got[:len(want)] != want or any(x != "orig" for x in got[len(want):]):
                 if after_end:
                     bad.append(("C02", "after scope exit calls answered by %s, specification says %s" % (got, h["out"])))
+                    if unwound_end:
+                        bad.append(("C05", "after unwinding calls answered by %s, specification says %s" % (got, h["out"])))
                 elif any(("panic" in str(x)) or ("panic" in str(y)) for x, y in zip(got, h["out"])):
                     bad.append(("C06", "counted fake: calls answered by %s, specification says %s" % (got, h["out"])))
                 else:
@@ -178,6 +183,7 @@ def compare_replay(hist, events, nf):
                 bad.append(("C05", "guard still held after scope exit"))
             pending_verify = None
             after_end = True
+            unwound_end = bool(h.get("unwound"))
     for e in events:
         if e["ev"] == "ChildExit" and (e["signal"] != 0 or e["code"] != 0):
             bad.append(("CRASH", "process ended with signal %s code %s" % (e["signal"], e["code"])))
@@ -222,6 +228,13 @@ def lifecycle_check(prop, tier):
     gen = {"C05": ("c5q", "c5t"), "C07": ("c7q", "c7t"), "C06": ("c6q", "c6t")}.get(prop, ("q", "t"))
     cfg = "MC_LifecycleApi_" + (gen[0] if tier == "quick" else gen[1])
     hists, gr = gen_behaviours(cfg, timeout=3000)
+    if prop in ("C02", "C03", "C12", "C17", "C05") and tier == "quick":
+        # longer histories over a minimal alphabet (three installs: A,B,A patterns)
+        h3, g3 = gen_behaviours("MC_LifecycleApi_q3", timeout=3000)
+        hists += h3
+        run.states += g3["distinct"]
+        run.transitions += g3["generated"]
+    nchained = 0
     if prop == "C05":
         # "repeated for many consecutive lifetimes": lifetimes are independent in the model, so the
         # concatenation of behaviours is a behaviour; run them again chained in one process
@@ -233,6 +246,7 @@ def lifecycle_check(prop, tier):
             for h in singles[k:k + 8]:
                 chain += h
             hists.append(chain)
+            nchained += 1
             k += 8
     run.models.append({"module": "MC_LifecycleApi", "cfg": cfg, "distinct": gr["distinct"], "generated": gr["generated"],
                        "behaviours": len(hists)})
@@ -243,7 +257,10 @@ def lifecycle_check(prop, tier):
     scen = []
     for i, h in enumerate(hists, 1):
         pool = "rust" if prop in ("C07", "C06") or nf == 1 else choose_pool(h, i)
-        scen.append(hist_to_scenario(h, i, pool, nf, diff=(prop == "C03" or i % 7 == 0), reuse_sites=(prop == "C07")))
+        # chained lifetimes (C05) evaluate the same fake! lines again, as a test body run in a loop would
+        chained = prop == "C05" and i > len(hists) - nchained
+        scen.append(hist_to_scenario(h, i, "rust" if chained else pool, nf, diff=(prop == "C03" or i % 7 == 0),
+                                     reuse_sites=(prop == "C07" or chained)))
     groups, order, _ = vlib.run_harness("lifecycle", scen, "lifecycle_" + prop)
     # spec -> impl
     nviol = 0
